@@ -8,6 +8,7 @@ import (
 	"flag"
 	"fmt"
 	"os"
+	"reflect"
 	"regexp"
 	"sort"
 	"strings"
@@ -291,6 +292,45 @@ func blocksMode(tier, shard, of int) int {
 	savedU := U
 	U = fu
 	enum.Tuples(len(U), 2, shard, of, one)
+	U = savedU
+	// all ordered pairs inside every group of same-kind rules that agree on their non-mergeable fields
+	// (merged access lists, signal sets, capability names must come back the way they were printed)
+	for _, kind := range universe.AllKinds {
+		KU := universe.Of(kind, tier)
+		groups := map[string][]int{}
+		order := []string{}
+		for i, r := range KU {
+			c := universe.Clone(r)
+			v := reflect.ValueOf(c).Elem()
+			for _, f := range []string{"Access", "Set", "Names"} {
+				if fv := v.FieldByName(f); fv.IsValid() && fv.CanSet() {
+					fv.Set(reflect.Zero(fv.Type()))
+				}
+			}
+			k := universe.Fields(c, false)
+			if _, ok := groups[k]; !ok {
+				order = append(order, k)
+			}
+			groups[k] = append(groups[k], i)
+		}
+		ng := 0
+		for gi, k := range order {
+			g := groups[k]
+			if len(g) < 2 || gi%of != shard {
+				continue
+			}
+			ng++
+			if ng > 40 && tier == universe.Quick {
+				break
+			}
+			U = KU
+			for _, a := range g {
+				for _, b := range g {
+					one([]int{a, b})
+				}
+			}
+		}
+	}
 	U = savedU
 	// triples over one rule per kind
 	U1 := universe.Mixed(tier, 1)
